@@ -1,7 +1,224 @@
-"""Renderer-side machinery shared by C04 C05 C09 C10 C14 C16 (Render.tla instances, exact structural conformance)."""
+"""Renderer-side machinery shared by C04 C05 C09 C10 C14 C16: instances of MC_ElementApi that enumerate trees by
+public operations over adversarial name pools, replay through the real API / renderer, RenderTrace judging."""
+import os
+from collections import Counter
 from . import common as c
+
+C04_TAGS = {"TEMPLATE", "EMPTY_NAME", "RESERVED", "ILLEGAL_STRUCT", "DUP_STRUCT", "SHADOW", "ILLEGAL_FIELD", "DUP_FIELD",
+            "UNRESOLVED", "USECOUNT"}
+C14_TAGS = {"NAME_SHAPE", "NEEDLESS_QUALIFICATION", "FIRST_NOT_ROOT", "STRUCT_COUNT"}
+C09_TAGS = {"FIELD_ORDER", "SORT_CHANGES_MORE", "STRUCT_COUNT"}
+C10_TAGS = {"DERIVE", "NEEDLESS_RENAME", "OPTION_CHANGES_SKELETON", "FIELDS_DIFFER", "STRUCT_COUNT"}
+C16_TAGS = {"FIELDS_DIFFER", "STRUCT_COUNT"} | C04_TAGS
+
+POOLS = {
+    "plain": ["a", "b"],
+    "case": ["Foo", "foo", "FOO"],
+    "separators": ["a-b", "a.b", "a_b", "AB", "aB"],
+    "concat": ["Total", "Price", "TotalPrice"],
+    "shadow": ["String", "Option", "Vec", "string"],
+    "keywords": ["self", "Self", "type", "Type", "crate", "loop"],
+    "prefixed": ["ns:a", "a", "x:a"],
+    "nonascii": ["д", "Д", "é", "ß", "SS"],
+    "depth": ["a"],
+    "underscore": ["_", "a", "a1"],
+    "fields": ["text", "text_content", "type"],
+    "fields2": ["p_attr", "r_type", "p"],
+}
+ATTRS = {"default": ["p"], "fields": ["text", "type"], "fields2": ["p", "type"], "prefixed": ["xmlns:n", "n:p"]}
+
+
+def atom(ch):
+    return ch if ord(ch) < 128 else "u%04x" % ord(ch)
+
+
+def tla_str(s):
+    return "<<" + ",".join('"%s"' % atom(ch) for ch in s) + ">>"
+
+
+def tla_pool(names):
+    return "{" + ", ".join(tla_str(n) for n in names) + "}"
+
+
+def run_pool(pid, pool, maxops, maxdepth, opkinds, emit=True, timeout=900, invariants=None):
+    """TLC over MC_ElementApi for one name pool; returns (result, cases path)."""
+    cfg = c.cfg_text(constants=dict(MaxOps=maxops, MaxDepth=maxdepth, OpKinds=set(opkinds), WithRender=True, Emit=emit),
+                     invariants=invariants or ["Unique", "EffectOK", "RenderOK", "RenderJudge", "EmitCase"])
+    cases = os.path.join(c.OUT, "cases", "%s-api-%s.ndjson" % (pid, pool))
+    r = c.run_tlc("MC_ElementApi", cfg, "%s-api-%s" % (pid, pool), workers=8, coverage=False, timeout=timeout,
+                  defs={"NamePool": tla_pool(POOLS[pool]), "AttrPool": tla_pool(ATTRS.get(pool, ATTRS["default"]))},
+                  replay_to=cases if emit else None, xmx="8g")
+    return r, cases
+
+
+def thin(path, limit):
+    """keep at most `limit` evenly spread lines of an ndjson file"""
+    lines = open(path).read().splitlines()
+    if len(lines) <= limit:
+        return len(lines), len(lines)
+    step = len(lines) / float(limit)
+    keep = [lines[int(i * step)] for i in range(limit)]
+    with open(path, "w") as f:
+        f.write("\n".join(keep) + "\n")
+    return len(lines), len(keep)
+
+
+def classify(rep, infos, relevant, events, source):
+    """INFO objects of RenderTrace -> violations / known findings / drift. Returns (judged tags counter, drift)."""
+    drift = 0
+    counter = Counter()
+    for i in infos:
+        tags = set(i.get("tags", [])) & relevant
+        ev = events[i["line"] - 1] if events and i.get("line") else {}
+        if i.get("drift"):
+            drift += 1
+        if not tags:
+            continue
+        for t in sorted(tags):
+            counter[t] += 1
+        f = None
+        if not i.get("drift") and tags <= set(i.get("modeltags", [])) | {"STRUCT_COUNT"}:
+            fs = [rep.match_finding(t) for t in sorted(tags)]
+            if all(fs):
+                f = fs[0]
+        render = (ev.get("renders") or [{}])[i.get("render", 1) - 1] if ev else {}
+        if f is not None:
+            rep.known_finding(f, "%s: %s (e.g. %s)" % (",".join(sorted(tags)), f.get("what_fails", ""), short_tree(ev)))
+        else:
+            rep.violation({"kind": "render", "tags": sorted(tags), "drift": i.get("drift"), "ops": ev.get("ops"),
+                           "docs": ev.get("docs"), "opts": render.get("opts"), "rendered": render.get("text"),
+                           "error": render.get("error"), "source": source},
+                          "%s%s on %s: %s" % (",".join(sorted(tags)),
+                                              " (and the output deviates from the as-coded model)" if i.get("drift") else "",
+                                              short_tree(ev), (render.get("text") or render.get("error") or "")[:200].replace("\n", "\\n")))
+    return counter, drift
+
+
+def unatom(seq):
+    return "".join(chr(int(x[1:], 16)) if len(x) > 1 and x[0] == "u" else x for x in seq)
+
+
+def short_tree(ev):
+    if not ev:
+        return "?"
+    if ev.get("docs"):
+        return " + ".join(ev["docs"])
+
+    def walk(t):
+        n = unatom(t["name"])
+        kids = " ".join(walk(k["e"]) for k in t.get("ch", []))
+        return "<%s%s>%s</%s>" % (n, "".join(" " + unatom(a["v"]) for a in t.get("attrs", [])), ("t" if t.get("text") else "") + kids, n)
+    return walk(ev["tree"]) if "tree" in ev else "?"
+
+
+def model_infos(rep, r, relevant, what):
+    """design level: tags the as-coded model produces (printed by MC_ElementApi!RenderJudge)"""
+    cnt = Counter()
+    for i in r.printed:
+        tags = set(i.get("tags", [])) & relevant
+        for t in tags:
+            cnt[t] += 1
+        unknown = [t for t in tags if not rep.match_finding(t)]
+        if unknown:
+            rep.violation({"kind": "model", "module": "MC_ElementApi", "tags": sorted(tags), "ops": i.get("ops")},
+                          "the as-coded renderer model violates %s on %s" % (",".join(sorted(unknown)), what))
+        else:
+            for t in tags:
+                f = rep.match_finding(t)
+                rep.known_finding(f, "%s at design level (model of the pinned renderer): %s" % (t, f.get("what_fails", "")))
+    return cnt
+
+
+def render_pools(rep, pid, tier, pools, relevant, opkinds=("add", "text", "optional", "multiple"), maxops=None,
+                 maxdepth=2, limit=None, opts="two", extra_opts=0, api_trace=False):
+    """enumerate trees per pool with TLC, replay through the real API, judge the real renderings with RenderTrace"""
+    c.build_harness()
+    maxops = maxops or (3 if tier == "quick" else 4)
+    limit = limit or (1500 if tier == "quick" else 20000)
+    total_tags = Counter()
+    for pool in pools:
+        r, cases = run_pool(pid, pool, maxops, maxdepth, opkinds)
+        if r.violated:
+            rep.violation({"kind": "model", "module": "MC_ElementApi", "invariant": r.violated, "trace": r.error_text},
+                          "the specification violates %s (pool %s)" % (r.violated, pool))
+        mt = model_infos(rep, r, relevant, "pool " + pool)
+        rep.add(states=r.distinct, transitions=r.generated)
+        total, kept = thin(cases, limit)
+        rtrace = os.path.join(c.OUT, "traces", "%s-render-%s.ndjson" % (pid, pool))
+        atrace = os.path.join(c.OUT, "traces", "%s-api-%s.ndjson" % (pid, pool))
+        args = ["api-replay", "--cases", cases, "--render-trace", rtrace, "--opts", opts, "--extra-opts", extra_opts,
+                "--seed", c.seed()]
+        if api_trace:
+            args += ["--trace", atrace]
+        s = c.harness(args, timeout=1800)
+        n, infos, st = c.judge_trace("RenderTrace", rtrace, "%s-rt-%s" % (pid, pool))
+        events = c.read_ndjson(rtrace)
+        cnt, drift = classify(rep, infos, relevant, events, "pool %s" % pool)
+        total_tags.update(cnt)
+        nrenders = sum(len(e["renders"]) for e in events)
+        rep.add(evaluations=nrenders, traces_validated_against_impl=n, trees_enumerated=total, trees_rendered=kept,
+                render_drift=drift + s.get("drift", 0), trace_states=st)
+        rep.add(**{"pool_" + pool: {"states": r.distinct, "trees": total, "rendered": kept, "model_tags": dict(mt), "real_tags": dict(cnt)}})
+        if api_trace:
+            acc, rej, st2 = c.validate_trace("ApiTrace", atrace, "%s-at-%s" % (pid, pool), timeout=1800)
+            for x in rej:
+                rep.violation({"kind": "api", "run": x.get("run"), "rejected_line": x.get("line"), "event": x.get("event")},
+                              "operation %s is not a step ApiTrace allows" % str((x.get("event") or {}).get("op"))[:200])
+            rep.add(api_steps_validated=acc)
+        if not rep.coverage.get("samples"):
+            rep.add(samples=[{"ops": e.get("ops"), "rendered": e["renders"][0].get("text")} for e in events[-2:]])
+        for p in (cases, rtrace, atrace):
+            try:
+                os.remove(p)
+            except OSError:
+                pass
+    rep.add(tags_seen=dict(total_tags))
+
+
+def random_trees(rep, pid, tier, relevant, n=None, ops=40, opts="two", extra_opts=0, pool=None, api_trace=False, remove=1):
+    """impl -> spec beyond the bounds: random operation sequences, judged by RenderTrace (and ApiTrace)"""
+    n = n or (150 if tier == "quick" else 3000)
+    rtrace = os.path.join(c.OUT, "traces", "%s-render-random.ndjson" % pid)
+    atrace = os.path.join(c.OUT, "traces", "%s-api-random.ndjson" % pid)
+    args = ["api-record", "--seed", c.seed(), "--n", n, "--ops", ops, "--render-trace", rtrace, "--opts", opts,
+            "--extra-opts", extra_opts, "--remove", remove]
+    if pool:
+        args += ["--pool", ",".join(pool)]
+    if api_trace:
+        args += ["--trace", atrace]
+    s = c.harness(args)
+    cnt_n, infos, st = c.judge_trace("RenderTrace", rtrace, "%s-rt-random" % pid)
+    events = c.read_ndjson(rtrace)
+    cnt, drift = classify(rep, infos, relevant, events, "random operation sequences")
+    rep.add(evaluations=sum(len(e["renders"]) for e in events), traces_validated_against_impl=cnt_n,
+            random_trees=cnt_n, render_drift=drift, trace_states=st)
+    if api_trace:
+        acc, rej, st2 = c.validate_trace("ApiTrace", atrace, "%s-at-random" % pid, timeout=1800)
+        for x in rej:
+            rep.violation({"kind": "api", "run": x.get("run"), "rejected_line": x.get("line"), "event": x.get("event")},
+                          "operation %s is not a step ApiTrace allows" % str((x.get("event") or {}).get("op"))[:200])
+        rep.add(api_steps_validated=acc, traces_validated_against_impl=acc)
+    return cnt
 
 
 def c09_render(rep, tier):
-    """C09, renderer half: filled in by the Render instances (see DESIGN.md §5 C09)."""
-    return
+    """C09, renderer half: field and struct order under both sort options"""
+    render_pools(rep, "C09", tier, ["plain", "prefixed"], C09_TAGS, opts="all", limit=150 if tier == "quick" else 5000)
+    random_trees(rep, "C09", tier, C09_TAGS, opts="all", remove=0, n=60 if tier == "quick" else 1500, ops=25)
+
+
+def replay_render(obj, rep, relevant):
+    """re-execute a `render` replay file: rebuild the tree by its operations, render, judge"""
+    if obj.get("kind") == "model":
+        c.log("design-level counterexample:\n" + str(obj)[:3000])
+        rep.add(evaluations=1, distinct_nontrivial=1, samples=[obj.get("tags")], states=1, transitions=1, traces_validated_against_impl=0)
+        return
+    cases = os.path.join(c.OUT, "cases", "%s.replay.ops.ndjson" % rep.pid)
+    c.write_ndjson(cases, [{"ops": obj["ops"]}])
+    rtrace = os.path.join(c.OUT, "traces", "%s.replay.render.ndjson" % rep.pid)
+    c.harness(["api-replay", "--cases", cases, "--render-trace", rtrace, "--opts", "all", "--extra-opts", 2, "--seed", c.seed()])
+    n, infos, st = c.judge_trace("RenderTrace", rtrace, "%s-rt-replay" % rep.pid)
+    events = c.read_ndjson(rtrace)
+    classify(rep, infos, relevant, events, "replay")
+    rep.add(evaluations=len(events), distinct_nontrivial=len(events), samples=[obj.get("ops")], states=st, transitions=st,
+            traces_validated_against_impl=n)
